@@ -120,6 +120,7 @@ func interestingValues() []uint32 {
 
 func genC01(r *rng, n int, hostile bool) []string {
 	var out []string
+	out = append(out, rareOps(r)...)
 	// the complete finite grid of the truncate + formatter stage: all 16 offsets x boundary values, and
 	// every digit count x boundary values for the three formatters
 	mods := []uint64{1, 10, 100, 1000, 10000, 100000, 1000000, 10000000, 100000000, 1000000000, 10000000000}
@@ -273,10 +274,11 @@ func mutateCode(r *rng, code string) (string, string) {
 }
 
 var skews = []uint64{0, 0, 1, 1, 2, 2, 3, 5, 9, 10, 10}
-var refusedSkews = []uint64{11, 12, 1000, 1 << 32, 1 << 63, 1<<64 - 1}
+var refusedSkews = []uint64{11, 12, 1000, 1 << 32, 1<<63 - 1, 1 << 63, 1<<63 + 1, 1<<64 - 2, 1<<64 - 1}
 
 func genC03(r *rng, n int, hostile bool) []string {
 	var out []string
+	out = append(out, rareOps(r)...)
 	for i := 0; i < n; i++ {
 		key := genKey(r)
 		d, a := genDigits(r, hostile), genAlgo(r, hostile)
@@ -306,6 +308,10 @@ func genC03(r *rng, n int, hostile bool) []string {
 		cc := c + uint64(dist)
 		if dist < 0 && uint64(-dist) > c {
 			cc = 0
+		}
+		if s > 10 && r.intn(2) == 0 {
+			// a refused window read as a signed / narrowed number: the code of the counter such a reading would reach
+			cc = c + pick(r, []uint64{s, -s, uint64(int64(s)), uint64(int32(s)), uint64(uint8(s)), -uint64(uint8(s))})
 		}
 		code := refHOTP(key, cc, d, a)
 		if code == "" {
@@ -374,6 +380,9 @@ func genC04(r *rng, n int, hostile bool) []string {
 		cc := step + uint64(dist)
 		if dist < 0 && uint64(-dist) > step {
 			cc = 0
+		}
+		if s > 10 && r.intn(2) == 0 {
+			cc = step + pick(r, []uint64{s, -s, uint64(int64(s)), uint64(int32(s)), uint64(uint8(s)), -uint64(uint8(s))})
 		}
 		code := refHOTP(key, cc, d, a)
 		if code == "" {
@@ -770,6 +779,30 @@ func refOCRA(key []byte, c cfgT, in string) string {
 	return refOCRAMsgCode(key, msg, digits, hash)
 }
 
+// rareCodes: counters at which the truncated HMAC value of the RFC 4226 test key is below 10 (found by cmd/rarecodes,
+// about 2·10^8 HMACs per hit): the decimal code then has the maximal number of leading zeros.  {algo, counter, value}
+var rareCodes = [][3]uint64{{0, 549209910, 2}, {0, 645201048, 2}, {0, 1145924030, 7}, {1, 100499525, 2}, {1, 142619083, 7}, {1, 211445524, 6},
+	{2, 170782163, 7}, {2, 188616518, 2}, {2, 222150204, 2}}
+
+const rfcKeyB32 = "GEZDGNBVGY3TQOJQGEZDGNBVGY3TQOJQ"
+
+// rareOps: generation and validation at the rare counters, for every code length
+func rareOps(r *rng) []string {
+	var out []string
+	for _, rc := range rareCodes {
+		a, c := int(rc[0]), rc[1]
+		for _, d := range []int{10, 9, 8, 6, 1} {
+			out = append(out, fmt.Sprintf("ghotp %s %d %s", hxs(rfcKeyB32), c, paramStr(d, 0, 0, a)))
+			code := refHOTP([]byte("12345678901234567890"), c, d, a)
+			for _, v := range []string{code, "+" + code[1:], " " + code[1:], code[1:], "-" + code[1:]} {
+				out = append(out, fmt.Sprintf("vhotp %s %s %d %s", hxs(rfcKeyB32), hxs(v), c+uint64(r.intn(3))-1, paramStr(d, 0, 1, a)))
+			}
+			out = append(out, fmt.Sprintf("gtotp %s %s %s", hxs(rfcKeyB32), timeFields(r, int64(c*30+uint64(r.intn(30)))), paramStr(d, 30, 0, a)))
+		}
+	}
+	return out
+}
+
 // ---------- C07 ----------
 
 func genC07(r *rng, n int, hostile bool) []string {
@@ -1093,6 +1126,12 @@ func genC17(r *rng, n int, hostile bool) []string {
 				w = pick(r, []int64{-1, -16, -1 << 40})
 			}
 			out = append(out, fmt.Sprintf("leftpad %s %d", hxs(hexString(r)), w))
+			// the Must* helper (documented to panic on text that is not hexadecimal): width in bytes, over-long values included
+			hs := hexString(r)
+			if r.intn(3) == 0 {
+				hs = strings.Repeat(pick(r, []string{"A", "0", "f", "7"}), r.intn(6)) + hx(r.bytes(1+r.intn(24)))
+			}
+			out = append(out, fmt.Sprintf("musthex %s %d", hxs(hs), pick(r, []int{0, 1, 2, 4, 8, 8, 8, 16, 20, 32, 64, 128})))
 		default:
 			fs := make([]string, 5)
 			for j := range fs {
